@@ -48,6 +48,17 @@ def gen(tier, rng):
             for level in (range(4) if tier == "thorough" else [ao % 4]):
                 add(api="deflate", inp=seg + seg, level=level, wrap=[0, 1, 3][ao % 3], lbuf=[3, 0][ao % 2], mem=ao % 3, calls=[[n, ao, 2, 0], [n, 1 << 16, [2, 0, 1][ao % 3], 0], [0, 1 << 16, 0, 1]],
                     meta={"family": "full-flush-pending-then-copy", "cls": "copy"})
+    # (j) FULL_FLUSH at input positions beyond 64 KiB (the match finders keep 16-bit positions), in data that repeats with a period just under the
+    #     32 KiB window: the bytes right after the flush point equal those one period earlier, so any stale or mis-seeded hash entry becomes a
+    #     match that reaches back across the flush point
+    k = 0
+    for period in ((32767, 32765) if tier == "quick" else (32767, 32766, 32765, 32764, 32760, 16383)):
+        base = igz.corpus(rng, "text", period)
+        for fpos in ((65536, 70000, 98306, 131076) if tier == "quick" else (65536, 65538, 70000, 98306, 131072, 131076, 131080, 196612)):
+            inp = (base * ((fpos + 40000) // period + 1))[:fpos + 40000]
+            for level in range(4):
+                add(api="deflate", inp=inp, level=level, wrap=[0, 1, 3][k % 3], lbuf=[3, 0][k % 2], mem=k % 3, calls=[[fpos, 1 << 18, 2, 0], [40000, 1 << 18, [0, 2][k % 2], 1]], tail_ao=1 << 18,
+                    meta={"family": "full-flush-beyond-64KiB-periodic", "cls": "periodic"}); k += 1
     # (e) one-shot raw FULL_FLUSH followed by a terminating call: outputs appended
     for cls, n in [("text", 500), ("random", 300), ("empty", 0), ("runs", 2000), ("zeros", 8), ("zeros", 300), ("ff", 1001), ("zeros", 4096), ("ff", 70000)]:
         a, b = igz.corpus(rng, cls, n), igz.corpus(rng, "text", 200)
